@@ -151,24 +151,37 @@ def check_all(tier, name):
             p0 = np.array(system.sample_momentum(base, ScriptRng([rs.standard_normal(n)]))) if had else None
             st = ChainState(pos=np.array(pos), mom=None if p0 is None else p0.copy(), dir=1)
             zs = [rs.standard_normal(n) for _ in range(len(hist))]
-            rng = ScriptRng(zs)
-            for kind, c in hist[1:]:
-                cval = float(fr(c))
-                tr = IndependentMomentumTransition(system) if kind == "independent" else CorrelatedMomentumTransition(system, cval)
-                st, _ = tr.sample(st, rng)
-            runs += 1
-            a, b = float(fr(leaf["a"])), [float(fr(x)) for x in leaf["b"]]
-            rp = {"engine": "momentum", "label": label, "hist": hist}
-            if rng.n != len(b):
-                add(f"C08:{label.split('[')[0]}:draws-consumed",
-                    f"{label}: transitions {hist[1:]} consumed {rng.n} normal draws, the specification {len(b)}", rp)
-                continue
-            want = (a * p0 if p0 is not None else np.zeros(n)) + sum(
-                bi * np.array(system.sample_momentum(base, ScriptRng([zs[i]]))) for i, bi in enumerate(b))
-            if st.mom is None or not np.allclose(st.mom, want, rtol=1e-10, atol=1e-12):
-                add(f"C08:{label.split('[')[0]}:refresh-law",
-                    f"{label}: after {hist} the momentum is {None if st.mom is None else np.round(st.mom, 6).tolist()} but "
-                    f"{a}*p0 + sum b_i L z_i with b = {b} is {np.round(want, 6).tolist()} (Gaussian law not preserved)", rp)
+            for shared_obj in (False, True):
+                # shared_obj: ONE transition object of each kind for the whole sequence, its (public) refresh coefficient
+                # reassigned before every use -- a refresh-rate schedule -- instead of a new object per step
+                st = ChainState(pos=np.array(pos), mom=None if p0 is None else p0.copy(), dir=1)
+                rng = ScriptRng(zs)
+                shared_c, shared_i = None, IndependentMomentumTransition(system)
+                for kind, c in hist[1:]:
+                    cval = float(fr(c))
+                    if not shared_obj:
+                        tr = IndependentMomentumTransition(system) if kind == "independent" else CorrelatedMomentumTransition(system, cval)
+                    elif kind == "independent":
+                        tr = shared_i
+                    else:
+                        if shared_c is None:
+                            shared_c = CorrelatedMomentumTransition(system, cval)
+                        shared_c.mom_resample_coeff = cval
+                        tr = shared_c
+                    st, _ = tr.sample(st, rng)
+                runs += 1
+                a, b = float(fr(leaf["a"])), [float(fr(x)) for x in leaf["b"]]
+                rp = {"engine": "momentum", "label": label, "hist": hist, "shared_transition_object": shared_obj}
+                if rng.n != len(b):
+                    add(f"C08:{label.split('[')[0]}:draws-consumed",
+                        f"{label}: transitions {hist[1:]} consumed {rng.n} normal draws, the specification {len(b)}", rp)
+                    continue
+                want = (a * p0 if p0 is not None else np.zeros(n)) + sum(
+                    bi * np.array(system.sample_momentum(base, ScriptRng([zs[i]]))) for i, bi in enumerate(b))
+                if st.mom is None or not np.allclose(st.mom, want, rtol=1e-10, atol=1e-12):
+                    add(f"C08:{label.split('[')[0]}:refresh-law",
+                        f"{label}: after {hist} the momentum is {None if st.mom is None else np.round(st.mom, 6).tolist()} but "
+                        f"{a}*p0 + sum b_i L z_i with b = {b} is {np.round(want, 6).tolist()} (Gaussian law not preserved)", rp)
     # ---- the metric of a Euclidean-metric system is reassigned (as the metric adapters do): momenta
     #      drawn afterwards must follow the NEW metric, whatever was drawn before ----
     import mici.systems as S
